@@ -11,6 +11,7 @@ mod jsr;
 mod ops;
 mod project;
 mod sched;
+mod symbols;
 mod world;
 
 use ops::*;
@@ -287,6 +288,7 @@ fn main() {
     Some("sched") => cmd_sched(&args),
     Some("info") => cmd_info(&args),
     Some("fc") => cmd_fc(&args),
+    Some("symbols") => cmd_symbols(&args),
     Some("replay-analyzer") => cmd_replay_analyzer(&args),
     Some("fcdump") => cmd_fcdump(&args),
     Some("replay-enc") => cmd_replay_enc(&args),
@@ -985,4 +987,136 @@ pub fn cmd_replay_analyzer(args: &[String]) -> i32 {
                    "corpus_modules": corpus.0, "corpus_descriptors": corpus.1, "corpus_ranges": corpus.2, "mismatches": mism});
   std::fs::write(&result_path, serde_json::to_string(&res).unwrap()).unwrap();
   0
+}
+
+/// symbols (C16): TLC-generated star re-export programs (--cases), seeded random packages (--n), spec corpus (--corpus)
+pub fn cmd_symbols(args: &[String]) -> i32 {
+  use rand::SeedableRng;
+  use std::collections::HashMap;
+  let trace_path = arg(args, "--trace").expect("--trace");
+  let result_path = arg(args, "--result").expect("--result");
+  let seed: u64 = arg(args, "--seed").map(|s| s.parse().unwrap()).unwrap_or(1);
+  let n: usize = arg(args, "--n").map(|s| s.parse().unwrap()).unwrap_or(0);
+  let mut out: Vec<Value> = vec![];
+  let mut problems: Vec<Value> = vec![];
+  let mut worlds = 0usize;
+  let mut run = |label: String, files: HashMap<String, String>, roots: Vec<String>, expect: Option<Value>, out: &mut Vec<Value>, problems: &mut Vec<Value>| {
+    out.push(json!({"ev": "symworld", "world": label, "files": files}));
+    let r = std::panic::catch_unwind(std::panic::AssertUnwindSafe(|| {
+      let g = symbols::build(&files, &roots);
+      let mut evs = vec![];
+      symbols::events_for(&g, &files, expect.as_ref(), &|u: &str| u.rsplit('/').next().unwrap_or(u).trim_end_matches(".ts").to_string(), &mut evs);
+      evs
+    }));
+    match r {
+      Ok(evs) => out.extend(evs),
+      Err(e) => problems.push(json!({"world": label, "what": "panic", "msg": panic_msg(e), "prop": ["C16"]})),
+    }
+  };
+  if let Some(cases) = arg(args, "--cases") {
+    for (i, l) in std::io::BufReader::new(std::fs::File::open(cases).expect("cases")).lines().enumerate() {
+      let l = l.unwrap();
+      if l.trim().is_empty() { continue; }
+      let case: Value = serde_json::from_str(&l).unwrap();
+      let mut files = HashMap::new();
+      let mut roots = vec![];
+      for (m, names) in case["own"].as_object().unwrap() {
+        let mut src = String::new();
+        for t in case["stars"][m].as_array().cloned().unwrap_or_default() {
+          src.push_str(&format!("export * from \"./{}.ts\";\n", t.as_str().unwrap()));
+        }
+        for nm in names.as_array().cloned().unwrap_or_default() {
+          let nm = nm.as_str().unwrap().to_string();
+          if nm == "default" { src.push_str("export default 1;\n"); } else { src.push_str(&format!("export const {nm}: number = 1;\n")); }
+        }
+        let url = format!("file:///{m}.ts");
+        roots.push(url.clone());
+        files.insert(url, src);
+      }
+      roots.sort();
+      worlds += 1;
+      run(format!("star{i}"), files, roots, Some(case["expect"].clone()), &mut out, &mut problems);
+    }
+  }
+  let mut rng = rand::rngs::StdRng::seed_from_u64(seed);
+  for i in 0..n {
+    let w = fc::gen_world(&mut rng, 0.1);
+    let mut files = HashMap::new();
+    let mut roots = vec![];
+    for p in &w.packages {
+      for (f, srcx) in &p.files {
+        let url = w.url(p, f);
+        // make file names unique across packages for the short ids used in the trace
+        files.insert(url.clone(), srcx.clone());
+        roots.push(url);
+      }
+    }
+    roots.sort();
+    worlds += 1;
+    run(format!("rand{i}"), files, roots, None, &mut out, &mut problems);
+  }
+  if let Some(dir) = arg(args, "--corpus") {
+    // one world per spec file: all its module sources
+    let mut by_file: std::collections::BTreeMap<String, Vec<(String, String)>> = Default::default();
+    for (file, spec, text) in corpus_sources_grouped(&dir) {
+      by_file.entry(file).or_default().push((spec, text));
+    }
+    for (file, mods) in by_file {
+      let mut files = HashMap::new();
+      let mut roots = vec![];
+      for (spec, text) in mods {
+        if spec.starts_with("file://") || spec.starts_with("https://") {
+          roots.push(spec.clone());
+          files.insert(spec, text);
+        }
+      }
+      if files.is_empty() { continue; }
+      roots.sort();
+      worlds += 1;
+      run(format!("corpus:{file}"), files, roots, None, &mut out, &mut problems);
+    }
+  }
+  let mut f = std::io::BufWriter::new(std::fs::File::create(&trace_path).unwrap());
+  for e in &out {
+    writeln!(f, "{}", e).unwrap();
+  }
+  let res = json!({"worlds": worlds, "trace_events": out.len(), "mismatches": problems});
+  std::fs::write(&result_path, serde_json::to_string(&res).unwrap()).unwrap();
+  0
+}
+
+pub fn corpus_sources_grouped(dir: &str) -> Vec<(String, String, String)> {
+  fn walk(d: &std::path::Path, out: &mut Vec<std::path::PathBuf>) {
+    if let Ok(rd) = std::fs::read_dir(d) {
+      for e in rd.flatten() {
+        let p = e.path();
+        if p.is_dir() { walk(&p, out) } else if p.extension().is_some_and(|x| x == "txt") { out.push(p) }
+      }
+    }
+  }
+  let mut files = vec![];
+  walk(std::path::Path::new(dir), &mut files);
+  files.sort();
+  let mut res = vec![];
+  for f in files {
+    let Ok(text) = std::fs::read_to_string(&f) else { continue };
+    let fname = f.to_string_lossy().to_string();
+    let mut cur: Option<(String, String)> = None;
+    for line in text.lines() {
+      if let Some(h) = line.strip_prefix("# ") {
+        if let Some(c) = cur.take() { res.push((fname.clone(), c.0, c.1)); }
+        let h = h.trim();
+        if h == "output" || h.starts_with("output") || h.starts_with("diagnostics") { continue; }
+        if h.contains("://") || h.contains('.') {
+          let spec = if h.contains("://") { h.to_string() } else { format!("file:///{h}") };
+          cur = Some((spec, String::new()));
+        }
+      } else if let Some((_, t)) = cur.as_mut() {
+        t.push_str(line);
+        t.push('\n');
+      }
+    }
+    if let Some(c) = cur.take() { res.push((fname.clone(), c.0, c.1)); }
+  }
+  res
 }
